@@ -47,3 +47,10 @@ MUTANTS += [
        "        slides = self.part.package.presentation_part.presentation.slides\n        return tuple(s for s in slides if s.slide_layout == self)\n\n    @lazyproperty\n    def _all_shapes(self):\n        return tuple(s for s in self.shapes)")],
      "R2.1 SlideLayout._all_shapes:snapshot"),
 ]
+
+MUTANTS += [
+    ("leaf-count-memoised", "Categories.leaf_count becomes a lazyproperty although add_category grows the list afterwards",
+     [("src/pptx/chart/data.py", "        raise ValueError(\"category not in top-level categories\")\n\n    @property\n    def leaf_count(self):",
+       "        raise ValueError(\"category not in top-level categories\")\n\n    @lazyproperty\n    def leaf_count(self):")],
+     "R2.1 Categories.leaf_count"),
+]
